@@ -165,10 +165,10 @@ type div struct {
 }
 
 type walkEnt struct {
-	hash           [32]byte
-	hdr            [80]byte
-	height, blen   uint32
-	txs            uint32
+	hash         [32]byte
+	hdr          [80]byte
+	height, blen uint32
+	txs          uint32
 }
 
 type hist struct {
@@ -183,19 +183,19 @@ type hist struct {
 	scale   int
 	nread   int
 
-	db      *chain.BlockDB
-	blocks  []*mblock
-	byHash  map[[32]byte]*mblock
-	queued  []*mblock
-	session int
-	height  uint32
-	nrec    int64 // observed number of index records
-	bytes   int
-	trace   []string
-	mtrace  []string // everything except get/length
-	dead    bool
+	db       *chain.BlockDB
+	blocks   []*mblock
+	byHash   map[[32]byte]*mblock
+	queued   []*mblock
+	session  int
+	height   uint32
+	nrec     int64 // observed number of index records
+	bytes    int
+	trace    []string
+	mtrace   []string // everything except get/length
+	dead     bool
 	panicked bool
-	lastRW  bool
+	lastRW   bool
 
 	maxIdxEver uint32
 
@@ -908,15 +908,15 @@ type rerr struct {
 }
 
 type readers struct {
-	view    []rblk
-	added   atomic.Int32 // number of this session's new blocks already handed to BlockAdd
-	stop    atomic.Bool
-	wg      sync.WaitGroup
-	mu      sync.Mutex
-	errs    []rerr
-	wrong   []string
-	gets    atomic.Int64
-	lens    atomic.Int64
+	view     []rblk
+	added    atomic.Int32 // number of this session's new blocks already handed to BlockAdd
+	stop     atomic.Bool
+	wg       sync.WaitGroup
+	mu       sync.Mutex
+	errs     []rerr
+	wrong    []string
+	gets     atomic.Int64
+	lens     atomic.Int64
 	panicked atomic.Bool
 }
 
